@@ -1,15 +1,18 @@
-\* two consecutive rewrites from a cold cache with arbitrary expiry in between: the cache carried over agrees with the files
+\* two consecutive rewrites from a cold cache with arbitrary expiry in between, the BE mechanisms (suppress / recover) alternating freely,
+\* and the environment replacing the file contents between the rewrites: the cache carried over agrees with the files (2 CPUs: the
+\* environment step multiplies the successors; MC_quick covers every consistent cache start over 3 CPUs). Run with coverage.
 SPECIFICATION MCSpec
 CONSTANTS
   CacheMerged = TRUE
   OwnUnion = TRUE
   MaxRewrites = 2
   MaxNodes = 2
-  CPUs = {0, 1, 2}
+  CPUs = {0, 1}
   LimitVals = {1, 2, 99}
   Kinds = {"cpuset", "limit"}
-  Algos = {"leveled", "suppress"}
+  Algos = {"leveled", "suppress", "recover"}
   CacheMode = "cold"
+  ExternalSteps = TRUE
 INVARIANT V
 INVARIANT TNAtEnd
 INVARIANT CacheAgrees
